@@ -68,6 +68,7 @@ type c10App struct {
 	news   map[string]int
 	errs   map[string]int
 	errAll []string
+	hold   func(remote string, tok []byte) // burst: runs: called by every handler before it logs the request
 }
 
 func newC10App() *c10App {
@@ -109,6 +110,9 @@ func (a *c10App) recovered() {
 }
 
 func (a *c10App) logCall(remote string, m *mux.Message, body []byte) {
+	if a.hold != nil {
+		a.hold(remote, m.Token())
+	}
 	a.mu.Lock()
 	a.hlog[remote] = append(a.hlog[remote], c10HCall{tok: append([]byte{}, m.Token()...), code: int(m.Code()), pay: append([]byte{}, body...)})
 	a.mu.Unlock()
@@ -116,6 +120,9 @@ func (a *c10App) logCall(remote string, m *mux.Message, body []byte) {
 
 func (a *c10App) onErr(err error) {
 	s := err.Error()
+	if os.Getenv("HXDBG") == "2" {
+		fmt.Fprintln(os.Stderr, "onErr:", s)
+	}
 	a.mu.Lock()
 	a.errAll = append(a.errAll, s)
 	// "udp: 127.0.0.1:4242: cannot process packet: ..."
@@ -134,6 +141,10 @@ type c10Send struct {
 	pre  []byte
 	salt int
 	n    int
+	// symbolic form for runs of one byte: data = pre ++ repN times repB ++ post
+	repB byte
+	repN int
+	post []byte
 	// well-behaved request
 	req   bool
 	typ   int
@@ -148,6 +159,9 @@ type c10Send struct {
 }
 
 func (s *c10Send) coqDg() string {
+	if s.repN > 0 {
+		return fmt.Sprintf("(DRep %s %d %d %s)", coqBytes(s.pre), s.repB, s.repN, coqBytes(s.post))
+	}
 	if s.n > 0 {
 		return fmt.Sprintf("(DGen %s %d %d)", coqBytes(s.pre), s.salt, s.n)
 	}
@@ -359,6 +373,10 @@ type c10UDPServer struct {
 }
 
 func c10StartUDP(app *c10App, listen string, maxsize int) (*c10UDPServer, error) {
+	return c10StartUDPOpts(app, listen, maxsize)
+}
+
+func c10StartUDPOpts(app *c10App, listen string, maxsize int, extra ...udpServer.Option) (*c10UDPServer, error) {
 	l, err := coapNet.NewListenUDP("udp4", listen)
 	if err != nil {
 		return nil, err
@@ -380,6 +398,7 @@ func c10StartUDP(app *c10App, listen string, maxsize int) (*c10UDPServer, error)
 	if maxsize > 0 {
 		opts = append(opts, options.WithMaxMessageSize(uint32(maxsize)))
 	}
+	opts = append(opts, extra...)
 	srv := &c10UDPServer{app: app, l: l, serveRet: make(chan error, 1)}
 	srv.s = udp.NewServer(opts...)
 	srv.port = l.LocalAddr().(*net.UDPAddr).Port
@@ -512,18 +531,24 @@ type c10UDPParams struct {
 	nbad    int
 	maxsize int
 	wild    bool
+	flood   bool // round 4 (udpopt: cases): the adversaries send messages made of long runs of small options
 }
 
 func (q c10UDPParams) desc() string {
-	return fmt.Sprintf("udp:%d:%d:%d:%d:%d:%d:%s", q.seed, q.good, q.bad, q.nreq, q.nbad, q.maxsize, coqBool(q.wild))
+	fam := "udp"
+	if q.flood {
+		fam = "udpopt"
+	}
+	return fmt.Sprintf("%s:%d:%d:%d:%d:%d:%d:%s", fam, q.seed, q.good, q.bad, q.nreq, q.nbad, q.maxsize, coqBool(q.wild))
 }
 
 func parseC10UDP(s string) (c10UDPParams, bool) {
 	f := strings.Split(s, ":")
-	if len(f) != 8 || f[0] != "udp" {
+	if len(f) != 8 || (f[0] != "udp" && f[0] != "udpopt") {
 		return c10UDPParams{}, false
 	}
 	var q c10UDPParams
+	q.flood = f[0] == "udpopt"
 	q.seed, _ = strconv.ParseUint(f[1], 10, 64)
 	q.good, _ = strconv.Atoi(f[2])
 	q.bad, _ = strconv.Atoi(f[3])
@@ -540,6 +565,7 @@ type c10UDPResult struct {
 	clean    bool // no watchdog fired
 	errDgram int
 	classes  map[string]int
+	cost     int // evaluation weight of long option runs
 }
 
 func c10RunUDP(q c10UDPParams) (c10UDPResult, error) {
@@ -575,9 +601,17 @@ func c10RunUDP(q c10UDPParams) (c10UDPResult, error) {
 		} else {
 			r := rng.Fork()
 			for k := 0; k < q.nbad; k++ {
-				s, cls := c10Malformed(r, maxsize, firstTok)
+				var sd *c10Send
+				var cls string
+				if q.flood && !r.Chance(20) {
+					w := c10ManyOptions(r, false, maxsize, 11)
+					sd, cls = &c10Send{data: w.bytes(), pre: w.pre, repB: w.b, repN: w.n, post: w.post}, w.kind
+				} else {
+					sd, cls = c10Malformed(r, maxsize, firstTok)
+				}
 				res.classes[cls]++
-				p.script = append(p.script, s)
+				res.cost += len(sd.data) * len(sd.data) / 500000
+				p.script = append(p.script, sd)
 			}
 		}
 		peers = append(peers, p)
@@ -660,7 +694,7 @@ func runC10(a runArgs) error {
 	e := NewEmitter("C10", "Server.Run")
 	e.Preamble = "From GoCoap Require Import Base.Bytes Dedup.Model Dedup.Spec Server.Model Server.Spec.\nFrom GoCoap Require Monitor.Model Server.KeepAlive.\nFrom GoCoap Require Import Server.Addr."
 	e.ShardSize = 24
-	e.Rule = "a case is one run of a real server on loopback sockets (udp.NewServer + mux router): 2-4 well-behaved raw-socket clients run scripted CON/NON GET/POST/PUT/DELETE sequences (distinct tokens and payload tags, some retransmissions) while 1-4 adversarial peers send malformed datagrams (truncated header, bad version, TKL 9-15, truncated token/option, nibble 15, option number overflow, marker without payload, random bytes), oversize datagrams, unsolicited ACK/RST/responses and valid requests reusing a good client's token, each burst followed by a ping whose Reset is awaited. Non-trivial = at least two well-behaved clients and at least one datagram the server refused. Handshake families (tls:/dtls: cases): tcp server on a TLS listener (self-signed ECDSA certificate made at run time) and dtls server with PSK; 1-2 well-behaved clients connect and get half of their answers, then 2-5 adversarial peers connect one after the other (send nothing / 3 bytes of a ClientHello / garbage / close at once / full handshake then silence; DTLS: ClientHello never followed up, garbage behind a handshake record header, ClientHello then socket closed, datagram the accept filter drops), then 1-3 more well-behaved clients connect; every run has a peer that never finishes its handshake; all such cases count as non-trivial. Round-2 families: discf: cases = discovery runs in which some DiscoveryRequest calls cannot send their datagram (IPv6 destination on an IPv4 socket, datagram above the UDP limit to a unicast address or a multicast group), followed with preference by responses carrying the same token and by new requests with it (non-trivial = at least one such call); ka: cases = udp/tcp servers with options.WithKeepAlive and 2-4 peers (answering pings, connect-and-stall, chatty, late) on a virtual clock, each peer observed with the others and alone (non-trivial = at least one ping sent and at least one peer dropped by keep-alive). Round-3 families (the keys of the two tables): keyrep: cases = getConnKey and the wildcard helpers on address pairs whose IPv4 addresses come as 4 bytes or as 16 bytes, nil / unspecified / multicast / IPv6 / zones included (non-trivial = the two pairs are the same pair in two representations); rep: cases = a live udp server bound to 127.0.0.1, 2-3 peers on AF_INET sockets sending requests, the application calling Server.NewConn with the peer address from the socket, from net.ResolveUDPAddr or from net.IPv4() (with or without the local address in either form) and sending requests over the connection returned, which the peer answers (non-trivial = at least one look-up with a 16-byte IP); tokkey: cases = Token.Hash() of tokens, among them families that differ only in zero bytes in front; disctok: cases = discovery runs whose token pool is one byte string with 0, 1, 2 and 8-len zero bytes in front (plus 00, 00 00 and, for responses, the empty token)."
+	e.Rule = "a case is one run of a real server on loopback sockets (udp.NewServer + mux router): 2-4 well-behaved raw-socket clients run scripted CON/NON GET/POST/PUT/DELETE sequences (distinct tokens and payload tags, some retransmissions) while 1-4 adversarial peers send malformed datagrams (truncated header, bad version, TKL 9-15, truncated token/option, nibble 15, option number overflow, marker without payload, random bytes), oversize datagrams, unsolicited ACK/RST/responses and valid requests reusing a good client's token, each burst followed by a ping whose Reset is awaited. Non-trivial = at least two well-behaved clients and at least one datagram the server refused. Handshake families (tls:/dtls: cases): tcp server on a TLS listener (self-signed ECDSA certificate made at run time) and dtls server with PSK; 1-2 well-behaved clients connect and get half of their answers, then 2-5 adversarial peers connect one after the other (send nothing / 3 bytes of a ClientHello / garbage / close at once / full handshake then silence; DTLS: ClientHello never followed up, garbage behind a handshake record header, ClientHello then socket closed, datagram the accept filter drops), then 1-3 more well-behaved clients connect; every run has a peer that never finishes its handshake; all such cases count as non-trivial. Round-2 families: discf: cases = discovery runs in which some DiscoveryRequest calls cannot send their datagram (IPv6 destination on an IPv4 socket, datagram above the UDP limit to a unicast address or a multicast group), followed with preference by responses carrying the same token and by new requests with it (non-trivial = at least one such call); ka: cases = udp/tcp servers with options.WithKeepAlive and 2-4 peers (answering pings, connect-and-stall, chatty, late) on a virtual clock, each peer observed with the others and alone (non-trivial = at least one ping sent and at least one peer dropped by keep-alive). Round-3 families (the keys of the two tables): keyrep: cases = getConnKey and the wildcard helpers on address pairs whose IPv4 addresses come as 4 bytes or as 16 bytes, nil / unspecified / multicast / IPv6 / zones included (non-trivial = the two pairs are the same pair in two representations); rep: cases = a live udp server bound to 127.0.0.1, 2-3 peers on AF_INET sockets sending requests, the application calling Server.NewConn with the peer address from the socket, from net.ResolveUDPAddr or from net.IPv4() (with or without the local address in either form) and sending requests over the connection returned, which the peer answers (non-trivial = at least one look-up with a 16-byte IP); tokkey: cases = Token.Hash() of tokens, among them families that differ only in zero bytes in front; disctok: cases = discovery runs whose token pool is one byte string with 0, 1, 2 and 8-len zero bytes in front (plus 00, 00 00 and, for responses, the empty token). Round-4 families (the decode loop of a pooled message): pool: cases = 4-7 received messages (runs of 8..2^11+8, thorough 2^12+8, one-byte options with delta 1/2/0 and length 0, around the powers of two, optionally behind Uri-Path and followed by a payload, a truncated option or a reserved nibble; plain requests; the malformed classes above) handed to UnmarshalWithDecoder of one pooled message (Reset in between, sometimes a new message) through a decoder that wraps the real udp/tcp coder, records cap(m.Options) at every attempt and cuts the loop after len+4 attempts (non-trivial = at least one message needed more than one attempt); udpopt:/tcpopt: cases = the live udp/tcp servers of the udp:/tcp: cases with adversaries that send such messages; burst: cases = a live udp server with ReceivedMessageQueueSize 1, 4, 16 (default) or 32 and 1-3 peers that send, interleaved and back to back, more NON requests than the queue holds (some peers fewer) while the handler of the very first request is held until the read loop is seen waiting inside Conn.Process or the socket is seen drained; observed per remote address: the order in which its requests reached the application."
 	rng := NewRng(a.seed)
 	if v, err := strconv.Atoi(os.Getenv("HX_C10_HS_RUNS")); err == nil && v > 0 && a.only == "" {
 		// development aid: stress the handshake families alone
@@ -668,6 +702,20 @@ func runC10(a runArgs) error {
 			return err
 		}
 		return e.Flush(a.out)
+	}
+	// round 4: the decode loop of a pooled message, on its own (c10_pool.go); first, because a decode that does not
+	// return makes every live run below sit out its watchdogs
+	{
+		m := 1
+		if a.tier == "thorough" {
+			m = 8
+		}
+		if c10PoolFamily(e, a, m) {
+			return e.Flush(a.out)
+		}
+		if err := c10BurstFamily(e, a, m); err != nil {
+			return err
+		}
 	}
 	runs := 24
 	if a.tier == "thorough" {
@@ -691,6 +739,18 @@ func runC10(a runArgs) error {
 			plan = append(plan, q)
 		}
 	}
+	if a.only == "" {
+		// round 4: udpopt: runs, parameters from a generator of their own
+		frng := NewRng(a.seed ^ 0xC10F100D)
+		n := 3
+		if a.tier == "thorough" {
+			n = 16
+		}
+		for i := 0; i < n; i++ {
+			plan = append(plan, c10UDPParams{seed: frng.U64() % 1000000007, good: 2 + frng.Intn(2), bad: 1 + frng.Intn(2), nreq: 4 + frng.Intn(4), nbad: 3 + frng.Intn(4),
+				maxsize: frng.Pick([]int{0, 4096, 1152}), flood: true})
+		}
+	}
 	for _, q := range plan {
 		var res c10UDPResult
 		var err error
@@ -712,7 +772,11 @@ func runC10(a runArgs) error {
 		}
 		e.Hist[fmt.Sprintf("good=%d", q.good)]++
 		e.Hist[fmt.Sprintf("bad=%d", q.bad)]++
-		e.AddW(res.coq, q.desc(), q.good >= 2 && res.errDgram > 0, 1+len(res.coq)/4000, "udp-run")
+		fam := "udp-run"
+		if q.flood {
+			fam = "udpopt-run"
+		}
+		e.AddW(res.coq, q.desc(), q.good >= 2 && (res.errDgram > 0 || q.flood), 1+len(res.coq)/4000+res.cost, fam)
 		if !res.alive || !res.clean {
 			// Serve returned, or an awaited datagram did not come in two attempts: the deviation is
 			// established by this case, do not sit out the watchdogs of the remaining runs
@@ -786,22 +850,32 @@ func runC10(a runArgs) error {
 	type tr struct {
 		sd         uint64
 		g, b, nreq int
+		flood      bool // round 4 (tcpopt: runs): the adversaries send frames made of long runs of small options
 	}
 	var trs []tr
 	if sd, f, ok := want("tcp"); ok && len(f) == 5 {
 		g, _ := strconv.Atoi(f[2])
 		b, _ := strconv.Atoi(f[3])
 		n, _ := strconv.Atoi(f[4])
-		trs = append(trs, tr{sd, g, b, n})
+		trs = append(trs, tr{sd, g, b, n, false})
+	} else if sd, f, ok := want("tcpopt"); ok && len(f) == 5 {
+		g, _ := strconv.Atoi(f[2])
+		b, _ := strconv.Atoi(f[3])
+		n, _ := strconv.Atoi(f[4])
+		trs = append(trs, tr{sd, g, b, n, true})
 	} else if a.only == "" {
 		for i := 0; i < 8*mult; i++ {
-			trs = append(trs, tr{rng.U64() % 1000000007, 2 + rng.Intn(3), 2 + rng.Intn(6), 4 + rng.Intn(6)})
+			trs = append(trs, tr{rng.U64() % 1000000007, 2 + rng.Intn(3), 2 + rng.Intn(6), 4 + rng.Intn(6), false})
+		}
+		frng := NewRng(a.seed ^ 0xC10F100E)
+		for i := 0; i < 2*mult; i++ {
+			trs = append(trs, tr{frng.U64() % 1000000007, 2, 2 + frng.Intn(3), 3 + frng.Intn(3), true})
 		}
 	}
 	for _, x := range trs {
 		var coq string
 		for attempt := 0; attempt < 3; attempt++ {
-			c, clean, classes, err := c10TCPRun(x.sd, x.g, x.b, x.nreq)
+			c, clean, classes, err := c10TCPRun(x.sd, x.g, x.b, x.nreq, x.flood)
 			if err != nil {
 				return err
 			}
@@ -814,7 +888,11 @@ func runC10(a runArgs) error {
 			}
 			e.Hist["rerun-after-watchdog"]++
 		}
-		e.AddW(coq, fmt.Sprintf("tcp:%d:%d:%d:%d", x.sd, x.g, x.b, x.nreq), true, 1+len(coq)/4000, "tcp-run")
+		fam := "tcp"
+		if x.flood {
+			fam = "tcpopt"
+		}
+		e.AddW(coq, fmt.Sprintf("%s:%d:%d:%d:%d", fam, x.sd, x.g, x.b, x.nreq), true, 1+len(coq)/4000, fam+"-run")
 	}
 	// closed-connection replacement against the concurrent sweep
 	var races []uint64
